@@ -236,6 +236,9 @@ type symExec struct {
 	noRet           map[*types.Func]int  // 1 = never returns (every path panics), 2 = returns
 	emitMode        bool                 // record loops as structured events, name labels
 	rangeBind       map[types.Object]val
+	callOverride    map[string]val // decision-table enumeration: fixed result of an external call, by callee id
+	raised          []*sstate      // paths that ended in a never-returning (raising) call, when keepRaised is set
+	keepRaised      bool
 	labelN          int
 }
 
@@ -313,7 +316,11 @@ func (se *symExec) isStack(e ast.Expr) bool {
 // runFunc executes fd with the given parameter values (nil entries = unknown) and returns all complete paths.
 // Parameter i gets the canonical name names[i] in rendered expressions.
 func (se *symExec) runFunc(fd *ast.FuncDecl, vals []*val, names []string) []pathResult {
-	st := newState()
+	return se.runFuncFrom(fd, vals, names, newState())
+}
+
+// runFuncFrom is runFunc starting from a prepared state (selector overrides for decision-table enumeration).
+func (se *symExec) runFuncFrom(fd *ast.FuncDecl, vals []*val, names []string, st *sstate) []pathResult {
 	n := 0
 	se.params = map[types.Object]string{}
 	for _, f := range fd.Type.Params.List {
@@ -1835,6 +1842,9 @@ func (se *symExec) evalCallMulti(call *ast.CallExpr, st *sstate) []pathResult {
 			name := FuncID(fn)
 			c.st.seq++
 			c.st.calls = append(c.st.calls, callRec{callee: name, args: c.args, recv: c.recv, pos: call.Pos(), seq: c.st.seq})
+			if se.keepRaised {
+				se.raised = append(se.raised, c.st)
+			}
 			continue // the path ends here (panics)
 		}
 		if fn != nil && fn.Pkg() == se.p.Types && !se.primitive[fn] && se.worthInlining(fn) {
@@ -1858,6 +1868,11 @@ func (se *symExec) evalCallMulti(call *ast.CallExpr, st *sstate) []pathResult {
 		var rets []val
 		for i := 0; i < nres; i++ {
 			rets = append(rets, unk(fmt.Sprintf("%s#%d", name, i)))
+		}
+		if ov, ok := se.callOverride[name]; ok && nres >= 1 {
+			rets[0] = ov
+			out = append(out, pathResult{c.st, rets})
+			continue
 		}
 		if fn != nil && se.emitMode && fn.Name() == "NewLabel" && nres == 1 {
 			se.labelN++
